@@ -1,18 +1,25 @@
 """
 C13 — every block token reports the source line on which it starts.
 
+Theorems (lean/Mistletoe/Props/C13.lean) over the block-parser model with ghost line origins.
+Units: `scan.*` (every hand-written scanner against the compiled pattern objects of the working
+tree) and `block.buffer` (the real tokenize_block - parse buffer with line numbers at every depth,
+looseness, definitions - against `Block.blockPhase` under four token sets, on the spec corpus,
+generated trees, random and malformed documents).
 Exploration: documents written from generated trees (harness/gen_tree.py); the writer knows the line
 on which it put each block; compared with token.line_number at every depth, under the Html and the
-Markdown token sets.
+Markdown token sets (this is also what covers TableRow/TableCell/ListItem constructors).
 """
 import random
 
+import block_units
 import common
+import gen_docs
 import gen_tree
 import impl
+import scan_units
 
 ID = 'C13'
-LEVEL = 'exploration'
 RULE = ('documents from the tree generator (all block kinds, containers nested to depth 4, list items that begin with a blank '
         'line, lazy continuation lines, link definitions before and between blocks, leading blank lines, omitted blank lines '
         'before interrupting blocks) x {Html, Markdown} token sets. Distinct by document; non-trivial when a block sits '
@@ -20,8 +27,10 @@ RULE = ('documents from the tree generator (all block kinds, containers nested t
 TRUSTED = ['harness/gen_tree.py records the line of every block as it writes it']
 ASSUMPTIONS = ['compared only when the sequence of block kinds in the parse equals the generated one (a structural difference '
                'is C03\'s business)']
-PARTIAL = ['interim level: generator-with-oracle exploration. The Lean proof with ghost line origins over the block-parser '
-           'model (C13_buffer_origin, C13_line_numbers) is the planned upgrade']
+PARTIAL = ['the theorems cover the block phase (tokenize_block and every read: the line number stored in the parse buffer, '
+           'at every depth); that the token constructors copy that number (ListItem, Table -> TableRow -> TableCell offsets) '
+           'is covered by C13_table_rows for the buffer side and by the exploration on the implementation for the rest',
+           'the model returns err .fuel when its call-chain budget runs out; the theorems are about returned results']
 
 
 def gen(seed, nblocks=None):
@@ -54,7 +63,15 @@ def finding_still_fails(finding):
 
 
 def units(ctx):
-    pass
+    scan_units.run(ctx)
+    rng = ctx.rng('block.buffer')
+    texts = list(gen_docs.spec_texts())
+    for i in range(ctx.budget(1200, 12000)):
+        texts.append(gen_tree.generate(random.Random(ctx.seed * 7919 + i), gen_tree.Opts())[1])
+    texts += [gen_docs.random_doc(rng) for _ in range(ctx.budget(1200, 12000))]
+    texts += [gen_docs.mutate(rng, rng.choice(texts[:652])) for _ in range(ctx.budget(600, 6000))]
+    texts += [gen_docs.malformed(rng) for _ in range(ctx.budget(300, 3000))]
+    block_units.run(ctx, texts)
 
 
 def explore(ctx, seeds):
